@@ -406,7 +406,7 @@ func c12Search(s *Search) {
 	if complete {
 		s.Res.Stats["short_inputs_all_compositions_complete"] = 1
 	}
-	for i := uint64(0); s.More(); i++ {
+	for i := s.Base(); s.More(); i++ {
 		if !s.Mine(int(i)) {
 			continue
 		}
